@@ -32,6 +32,13 @@ claim("C11", "file-publication typestate: forward must-dataflow + edge-cut reach
       "Decides, for every path through every publication site of the local file system, fsync-after-last-write before rename, directory fsync before success, and fail-stop of sync/close/rename/dirsync errors. This is the property as stated for local files (call order on all paths); physical durability of fsync and remote back ends are not decided. One defect found and fixed (F5).",
       _TB, "DESIGN.md 3/C11")
 
+claim("C01", "path-sensitive fail-stop walk over the acknowledgement cone + value provenance (custom analyser)",
+      "Decides the acknowledgement skeleton for every path: an acknowledgement can only be produced after every stage call on the path returned nil (no stage error dropped or turned into success; deliberate tolerances are a frozen, reasoned table), the LTX header/page-copy provenance and the checkpoint protocol ordering. Page-level equality and the continuity decision (C04) are not decided.",
+      _TB, "DESIGN.md 3/C01")
+claim("C05", "path-sensitive fail-stop walk (upload/compaction cones) + edge-cut reachability",
+      "Decides, for every fault pattern that surfaces as a returned error, that the replica position advances only after a successful upload of exactly pos+1, that no error on the upload/compaction path is dropped (pipe hand-offs and the sticky reader error included), that staged files are removed and that the monitors cannot terminate on an error. Convergence time and ambiguous remote outcomes are not decided.",
+      _TB, "DESIGN.md 3/C05")
+
 _pending = "check not built yet in this revision (planned, see DESIGN.md section 3); not claimed until its rules run clean on the unchanged tree"
-for _p in ["C01","C04","C05","C06","C10","C12","C13","C14","C16","C18","C19"]:
+for _p in ["C04","C06","C10","C12","C13","C14","C16","C18","C19"]:
     na(_p, _pending)
